@@ -493,7 +493,7 @@ class StandardObserver:
                 rule = lw > lu
             ev = {"mode": d["mode"], "n": int(lw.size), "n_acc": int(acc.sum()),
                   "mask_ok": bool(acc.shape == rule.shape and np.array_equal(acc, rule)),
-                  "norm_ok": bool(lw.size == 0 or np.nanmax(lw) <= 1e-12),
+                  "norm_ok": _norm_ok(lw),
                   "n_target": int(d["n_target"])}
             if d["mode"] == "batch":
                 ev["n_before"] = int(d["n_before"])
@@ -518,7 +518,7 @@ class StandardObserver:
                 rule = np.where((lw - lu) >= 0)[0]
             self.em.emit("pbatch", mode="single", n=int(lw.size), n_acc=int(len(d["indices"])),
                          mask_ok=bool(np.array_equal(np.asarray(d["indices"]), rule)),
-                         norm_ok=bool(lw.size == 0 or np.nanmax(lw) <= 1e-12), n_target=int(d["n_target"]))
+                         norm_ok=_norm_ok(lw), n_target=int(d["n_target"]))
 
     # ------------------------------------------------------------------
     def take_draws(self):
@@ -671,6 +671,16 @@ def wrap_checkpoint(obs):
                 pass
 
     sbase.BaseNestedSampler.checkpoint = checkpoint
+
+
+def _norm_ok(lw):
+    """log-weights normalised by their maximum: no entry above zero (a batch without any finite weight - every
+    candidate has zero prior density - cannot accept anything and is normalised vacuously)."""
+    lw = np.asarray(lw, dtype=float)
+    if np.any(lw == np.inf):
+        return False
+    fin = lw[np.isfinite(lw)]
+    return bool(fin.size == 0 or float(fin.max()) <= 1e-12)
 
 
 def _reparam_repr(rep):
